@@ -19,6 +19,9 @@ type concCase struct {
 	Cases   []runCase `json:"cases"`
 	Reps    int       `json:"reps"`
 	Readers int       `json:"readers"` // goroutines serialising one validated catalog concurrently
+	// Cold: this many goroutines validate each project at the same moment BEFORE it was ever processed
+	// in this process (first contact with its files happens concurrently)
+	Cold int `json:"cold"`
 }
 
 type concObs struct {
@@ -53,8 +56,36 @@ func cmdConc(line []byte, emit func(interface{})) {
 			emit(map[string]string{"harness_error": err.Error()})
 			return
 		}
-		solo[i] = once(&c.Cases[i], filepath.Join(top, "proj"), map[string]bool{})
+	}
+	cold := make([][]*runObs, len(c.Cases))
+	if c.Cold > 1 {
+		for i := range c.Cases {
+			cold[i] = make([]*runObs, c.Cold)
+			start := make(chan struct{})
+			var cg sync.WaitGroup
+			for g := 0; g < c.Cold; g++ {
+				cg.Add(1)
+				go func(g int) {
+					defer cg.Done()
+					<-start
+					cold[i][g] = once(&c.Cases[i], filepath.Join(tops[i], "proj"), map[string]bool{})
+				}(g)
+			}
+			close(start)
+			cg.Wait()
+		}
+	}
+	for i := range c.Cases {
+		solo[i] = once(&c.Cases[i], filepath.Join(tops[i], "proj"), map[string]bool{})
 		o.Solo = append(o.Solo, solo[i].Outcome)
+		for g, x := range cold[i] {
+			o.Runs++
+			if obsKey(x) != obsKey(solo[i]) && len(o.Diffs) < 5 {
+				b, _ := json.Marshal(map[string]interface{}{"case": c.Cases[i].ID, "rep": g, "cold": true, "solo": solo[i].Outcome,
+					"concurrent": x.Outcome, "solo_err": solo[i].Err, "conc_err": x.Err, "panic": x.Panic, "json_diff": firstDiff(solo[i].JSON, x.JSON), "solo_json": solo[i].JSON, "conc_json": x.JSON})
+				o.Diffs = append(o.Diffs, string(b))
+			}
+		}
 	}
 	reps := c.Reps
 	if reps < 1 {
